@@ -630,7 +630,7 @@ func buildPhases(r *h.Run, p profile) []phase {
 			lens = append(lens, t)
 		}
 		lens = append(lens, 1023, 1024, 4097)
-		r.Bounds["tail_sweep"] = fmt.Sprintf("leaf tail lengths 1..%d bytes + {1023, 1024, 4097} x 4 shapes", maxT)
+		r.Bounds["tail_sweep"] = fmt.Sprintf("leaf tail lengths 1..%d bytes + {1023, 1024, 4097} x 5 shapes", maxT)
 		mkq := mk(sp.q2)
 		phases = append(phases, phase{"tail-sweep", func(emit func(u interface{}) bool) {
 			if p.scaffoldFilter != nil && !p.scaffoldFilter("tailsweep") {
@@ -643,6 +643,7 @@ func buildPhases(r *h.Run, p profile) []phase {
 					{"app/a", "app/b-" + x, "app/c", "b"},
 					{"\x30" + x + "\x01", "\x30" + x + "\x02" + y, "\x31"},
 					{"\x1f" + x, "\x2a", "\x3b" + y}, // every key alone in its first nibble, the long ones first and last
+					{"\x1f" + x + "\x01", "\x1f" + x + "\x02\x02", "\x7azz"}, // prefix-less root over a child with a long stored prefix
 				}
 				for si, S := range shapes {
 					sort.Strings(S)
